@@ -31,6 +31,10 @@ Applicable(c) == /\ (c.mal \in {"priv96ok", "priv96mismatch", "priv96mid"} => c.
                  /\ (c.mal = "wrongpemtype" => c.enc = "pem")
                  /\ (c.mal = "nottext" => c.enc # "proto")
 ExpKey(c) == [accept |-> c.mal \in {"none", "priv96ok"}]
+\* public keys given as raw 32-byte strings that are unusual encodings: a non-canonical y (>= p), x = 0 with the sign bit set, bytes that are
+\* no curve point at all.  A parser may refuse them, but a key it returns must re-encode to exactly the bytes it was given (lossless).
+RawPubCases == [prop : {"C11"}, kind : {"rawpub"}, enc : {"proto", "pem", "b58"}, cls : {"noncanonicalY", "zeroXsign", "notOnCurve"}, v : 0..5]
+ExpRawPub(c) == [allowed |-> {"same", "error"}]
 
 \* ---------------------------------------------------------------- C15
 HT == {"sha256", "sha1", "blake3", "unknown", "bad99", "neg1"}
@@ -42,9 +46,9 @@ ExpHash(c) ==
   [verify |-> c.ht \in Known /\ c.of = c.vdata /\ c.len = "ok",
    valid |-> IF c.ht = "unknown" THEN "dc" ELSE IF c.ht \in Known /\ c.len = "ok" THEN "accept" ELSE "reject"]
 
-Cases == PeerIdPairs \cup PeerIdBytes \cup {c \in KeyCases : Applicable(c)} \cup HashCases
+Cases == PeerIdPairs \cup PeerIdBytes \cup {c \in KeyCases : Applicable(c)} \cup HashCases \cup RawPubCases
 Expected(c) == IF c.kind = "pair" THEN ExpPair(c) ELSE IF c.kind = "bytes" THEN ExpBytes(c)
-               ELSE IF c.kind = "key" THEN ExpKey(c) ELSE ExpHash(c)
+               ELSE IF c.kind = "key" THEN ExpKey(c) ELSE IF c.kind = "rawpub" THEN ExpRawPub(c) ELSE ExpHash(c)
 
 VARIABLE c
 Init == c \in Cases
